@@ -749,6 +749,16 @@ func handle(line string) string {
 			return "BADCASE"
 		}
 		return runEncW(proto, f[2] == "1", v)
+	case "encr":
+		if len(f) != 4 {
+			return "BADCASE"
+		}
+		seed, err := strconv.ParseInt(f[1], 10, 64)
+		proto, err2 := strconv.Atoi(f[2])
+		if err != nil || err2 != nil {
+			return "BADCASE"
+		}
+		return encrCase(seed, proto, f[3] == "1")
 	case "long":
 		s, err := unhexOrDash(f[1])
 		if err != nil {
